@@ -252,13 +252,18 @@ pub fn get_navigation_node_from_braille_position(mathml: Element, position: usiz
     // save the current highlight state, set the state to be the end points so we can find the braille, then restore the state
     // FIX: this can fail if there is 8-dot braille
     use crate::interface::{get_preference, set_preference};
-    let saved_highlight_style = get_preference("BrailleNavHighlight".to_string()).unwrap();
-    set_preference("BrailleNavHighlight".to_string(), "EndPoints".to_string()).unwrap();
+    if mathml.children().is_empty() {
+        bail!("get_navigation_node_from_braille_position: no MathML has been set (call set_mathml first)");
+    }
+    let saved_highlight_style = get_preference("BrailleNavHighlight".to_string())?;    // fails if the rules directory was not set
+    set_preference("BrailleNavHighlight".to_string(), "EndPoints".to_string())?;
 
     N_PROBES.with(|n| {*n.borrow_mut() = 0});
     // dive into the child of the <math> element (should only be one)
-    let search_state = find_navigation_node(mathml, as_element(mathml.children()[0]), position)?;
-    set_preference("BrailleNavHighlight".to_string(), saved_highlight_style.to_string()).unwrap();
+    let search_state = find_navigation_node(mathml, as_element(mathml.children()[0]), position);
+    // restore the preference before looking at the result so that an error does not leave the highlight style changed
+    set_preference("BrailleNavHighlight".to_string(), saved_highlight_style.to_string())?;
+    let search_state = search_state?;
 
     // we know the attr value exists because it was found internally
     // FIX: what should be done if we never did the search?
